@@ -260,6 +260,8 @@ def _case(arg) -> Dict[str, Any]:
     from hv import gen, rt
 
     kw = dict(n_threads=1 + seed % 2, n_streams=2, steps=1 + seed % 2, p_launch=0.8, p_zero=0.0, min_launch_q=1, p_sync=0.0, n_top=3 + seed % 2, max_depth=3, p_missing_kernel=0.05)
+    if seed % 3 == 1:
+        kw["p_frac_kernel_dur"] = 0.7  # fractional kernel durations (whole-number timestamps): the GPU totals are sums of the exact durations
     if seed % 3 == 2:
         kw.update(steps=0, n_top=6, noncomplete_events=False)  # no long annotation, no entry without a duration: the loader stores `dur` in one byte while pattern totals exceed it
     per_rank = gen.gen_trace_set(seed, n_ranks=1, **kw)
@@ -280,7 +282,10 @@ def _case(arg) -> Dict[str, Any]:
             cg = CallGraph(ta.t, ranks=[0])
             df = cg.trace_data.get_trace(0)
             stab = ta.t.symbol_table.get_sym_table()
-            rows = {int(i): dict(ts=int(ts), dur=int(du), stream=int(s), parent=int(p), depth=int(dp), name=stab[int(nm)], tid=int(tid), pid=int(pid))
+            def num(x):
+                return int(x) if float(x) == int(x) else float(x)  # quarter fractions are exact in binary
+
+            rows = {int(i): dict(ts=num(ts), dur=num(du), stream=int(s), parent=int(p), depth=int(dp), name=stab[int(nm)], tid=int(tid), pid=int(pid))
                     for i, ts, du, s, p, dp, nm, tid, pid in zip(df["index"], df["ts"], df["dur"], df["stream"], df["parent"], df["depth"], df["name"], df["tid"], df["pid"])}
             by_thread: Dict[Any, List[Any]] = {}
             for i, rw in rows.items():
@@ -328,7 +333,7 @@ def _case(arg) -> Dict[str, Any]:
                 if ambiguous:
                     continue
                 n += 1
-                got = {r["pattern"]: [int(r["count"]), int(r["GPU kernel duration (us)"]), int(r["CPU op duration (us)"])] for _, r in res.iterrows()} if len(res) else {}
+                got = {r["pattern"]: [int(r["count"]), num(r["GPU kernel duration (us)"]), num(r["CPU op duration (us)"])] for _, r in res.iterrows()} if len(res) else {}
                 if got != exp:
                     fails.append({"what": "patterns_counts_durations", "input": inp, "observed": dict(list(got.items())[:4]), "expected": dict(list(exp.items())[:4])})
                 elif len(res):
